@@ -36,6 +36,17 @@ fn hex_decode(s: &str) -> Result<Vec<u8>, Error> {
     hex::decode(s).map_err(|_| Error::DecodeHexError(s.to_string()))
 }
 
+/// Names an expression in an error message. The `Debug` form of an analysed node embeds every
+/// symbol it resolved to, recursively, so it is never built for a message.
+fn describe_expr(expr: &ast::DataExpr) -> String {
+    match expr {
+        ast::DataExpr::Identifier(x) => x.value.clone(),
+        ast::DataExpr::Number(x) => x.to_string(),
+        ast::DataExpr::String(x) => format!("{:?}", x.value),
+        _ => "<expression>".to_string(),
+    }
+}
+
 fn expect_type_def(ident: &ast::Identifier) -> Result<&ast::TypeDef, Error> {
     let symbol = ident
         .symbol
@@ -511,14 +522,11 @@ impl IntoLower for ast::PropertyOp {
         let ty = self
             .operand
             .target_type()
-            .ok_or(Error::MissingAnalyzePhase(format!("{0:?}", self.operand)))?;
+            .ok_or_else(|| Error::MissingAnalyzePhase(describe_expr(&self.operand)))?;
 
-        let prop_index =
-            ty.property_index(*self.property.clone())
-                .ok_or(Error::InvalidProperty(
-                    format!("{:?}", self.property),
-                    ty.to_string(),
-                ))?;
+        let prop_index = ty
+            .property_index(*self.property.clone())
+            .ok_or_else(|| Error::InvalidProperty(describe_expr(&self.property), ty.to_string()))?;
 
         Ok(ir::Expression::EvalBuiltIn(Box::new(
             ir::BuiltInOp::Property(object, prop_index.into_lower(ctx)?),
